@@ -640,4 +640,30 @@ Proof.
   intros H; inversion H; subst. apply ufvk_from_checked_parts_derivable in E. tauto.
 Qed.
 
+(** the decoded key derives the same addresses at every index and for every request *)
+Theorem ufvk_roundtrip_addresses net k :
+  net < 3 -> ufvk_wf O k -> ufvk_encodable k = true ->
+  comp_len_ok KFvk (fvk_t k) (fvk_s k) (fvk_o k) -> unknown_sizes_ok (fvk_unknown k) ->
+  exists hrp raw k', ufvk_encode net k = Ok (hrp, raw)
+    /\ ufvk_decode O net (Bech hrp (Some raw)) = Ok k'
+    /\ ufvk_encode net k' = Ok (hrp, raw)
+    /\ forall j r, ufvk_address O k' j r = ufvk_address O k j r /\ ufvk_address O k j r <> Panic.
+Proof.
+  intros N W E L S. destruct (ufvk_roundtrip net k N W E L S) as (hrp & raw & A & B & _).
+  exists hrp, raw, k. repeat split; try assumption.
+  destruct W as (_ & _ & _ & _ & D). destruct (address_commutes_ufvk O k j r D) as (i & _ & X & _).
+  rewrite X. apply address_never_panics.
+Qed.
+
+Theorem usk_roundtrip_addresses k :
+  usk_wf O k ->
+  exists k', usk_from_bytes O (usk_to_bytes k) = Ok k' /\ usk_to_bytes k' = usk_to_bytes k
+    /\ forall j r, usk_address O k' j r = usk_address O k j r /\ usk_address O k j r <> Panic.
+Proof.
+  intros W. exists k. split; [apply usk_roundtrip, W|]. split; [reflexivity|]. intros j r. split; [reflexivity|].
+  destruct W as (_ & _ & _ & _ & _ & _ & D).
+  assert (D' : ufvk_derivable O (usk_to_ufvk O k)) by (unfold ufvk_derivable; cbn; exact D).
+  destruct (address_commutes O k j r D') as (i & _ & X & Y). rewrite X, Y. apply address_never_panics.
+Qed.
+
 End Strings.
